@@ -5,7 +5,9 @@ the writer thread (drain_metric) on the real MetricCache(), all six strategies, 
 bounding; oracle = brute-force linearizability against a plain dict + size invariant at every
 scheduling point at which the lock is free.  Sequential histories: see mc/cacheseq.py.
 """
-from .. import cacheh, cacheseq
+import os
+
+from .. import cacheh, cacheseq, core, env, thrx
 
 LEVEL = 'model_checking'
 MANIFEST = {
@@ -62,6 +64,105 @@ def jobs(ctx):
   return out
 
 
+# ---- start-up: who creates the cache ---------------------------------------------------------------------------------------
+class StartupRace(thrx.Harness):
+  """The very first datapoint against the writer thread's very first pass.  As in the daemon, the pipeline (and with it
+  the feeder, CacheFeedingProcessor) is built on the main thread before either thread runs; from then on the reactor
+  thread feeds datapoints and the writer thread does what writeCachedDataPoints() does first: MetricCache() and a drain.
+  Whatever the interleaving, both threads must be talking about ONE cache: every stored datapoint is in the cache the
+  daemon ends up with, or was handed out by a drain."""
+  horizon = 4000
+
+  def __init__(self, p):
+    self.p = p
+
+  def visible(self):
+    return {os.path.join(env.REPO, 'lib', 'carbon', 'cache.py'): None}
+
+  def setup(self, s):
+    p = self.p
+    settings = env.boot()
+    env.reset_state()
+    settings['CACHE_WRITE_STRATEGY'] = p['strategy']
+    settings['MAX_CACHE_SIZE'] = float('inf')
+    settings['USE_FLOW_CONTROL'] = False
+    settings['MIN_TIMESTAMP_LAG'] = 0
+    env.apply_daemon_cache_limits(settings)
+    import carbon.cache
+    self.mod = carbon.cache
+    carbon.cache._Cache = None
+
+    class SchedThreading(object):     # locks the cache creates for itself must be the scheduler's
+      @staticmethod
+      def Lock():
+        return thrx.SchedLock(s)
+      RLock = Lock
+    self.saved = (carbon.cache.threading, carbon.cache.time)
+    carbon.cache.threading = SchedThreading
+    carbon.cache.time = cacheh.VTime(s)
+    self.proc = carbon.cache.CacheFeedingProcessor()
+    self.drained = []
+    self.exc = []
+    self.sched = s
+    s.spawn('reactor', self.reactor_body)
+    s.spawn('writer', self.writer_body)
+
+  def teardown(self, s):
+    final = self.mod._Cache          # the cache the daemon ended up with (the verdict is computed after teardown)
+    self.held = sorted((m, ts, v) for m, q in (dict.items(final) if final is not None else ()) for ts, v in q.items())
+    self.mod.threading, self.mod.time = self.saved
+    self.mod._Cache = None
+
+  def reactor_body(self):
+    for m, ts, v in self.p['stores']:
+      self.sched.point(('op', 'store', m, ts))
+      try:
+        self.proc.process(m, (ts, v))
+      except thrx.Abort:
+        raise
+      except Exception as e:   # noqa
+        self.exc.append('store raised %r' % (e,))
+
+  def writer_body(self):
+    for _ in range(self.p.get('drains', 2)):
+      self.sched.point(('op', 'drain'))
+      try:
+        m, dps = self.mod.MetricCache().drain_metric()
+      except thrx.Abort:
+        raise
+      except Exception as e:   # noqa
+        self.exc.append('drain raised %r' % (e,))
+        continue
+      if m is not None:
+        self.drained.extend((m, ts, v) for ts, v in dps)
+
+  def outcome(self, s):
+    return (tuple(self.drained), tuple(self.exc))
+
+  def verdict(self, s):
+    if s.horizon_hit or s.deadlock:
+      return None
+    if self.exc:
+      return ('exception:startup', self.exc[0])
+    held = self.held
+    want = sorted(self.p['stores'])
+    got = sorted(held + self.drained)
+    if got != want:
+      return ('conservation:startup', 'stored %r; the daemon\'s cache holds %r and the writer drained %r: %r vanished (the threads did not '
+              'share one cache)' % (want, held, self.drained, [x for x in want if x not in got]))
+    return None
+
+
+def make_startup(p):
+  return StartupRace(p)
+
+
+def startup_job(arg):
+  p, bounds = arg
+  env.boot()
+  return thrx.explore(make_startup, p, bounds, fanout=10 ** 9)
+
+
 # The series called 'm' in the programs is really sent as 'm;x': a name that violates the tag rules (C18: rejected by the
 # parser, stored exactly as received).  Every store AND every cache query for it goes through the real name handling.
 RENAME = {'m': 'm;x'}
@@ -76,6 +177,14 @@ def rename(x):
 
 
 def run(ctx):
+  sjobs = [({'strategy': st, 'stores': [('m', 1.5, 1.0), ('n', 1.5, 2.0)], 'drains': 2}, (ctx.pick(2, 3), 1 if st == 'random' else 0))
+           for st in (STRATEGIES if ctx.thorough else ('sorted', 'max', 'naive'))]
+  sexec = 0
+  for (p, b), st in zip(sjobs, core.pmap(startup_job, sjobs, fresh=True)):
+    sexec += st['executions']
+    for key, what, rep in st['violations']:
+      ctx.violation(key, '%s | start-up race, strategy=%s' % (what, p['strategy']), {'startup': p, 'choices': rep['choices']})
+  ctx.add(startup_race_executions=sexec)
   js = [(dict(p, init=rename(p.get('init', [])), reactor=rename(p['reactor'])), b) for p, b in jobs(ctx)]
   cacheh.run_jobs(ctx, js, 'C02')
   cacheseq.run(ctx, oracles=('c02',), depth=ctx.pick(5, 7), strategies=STRATEGIES, max_cache=None, metrics=('m;x', 'n', 'o'))
@@ -92,4 +201,11 @@ def replay(path):
   body = json.load(open(path))
   if body['replay'].get('engine') == 'evx-cacheseq':
     return cacheseq.replay(body)
+  if 'startup' in body['replay']:
+    env.boot()
+    sch, h = thrx.run_one(make_startup, body['replay']['startup'], body['replay']['choices'])
+    v = h.verdict(sch)
+    print('drained:', h.drained, 'final cache:', dict(h.mod.MetricCache()) if False else '(see oracle)')
+    print('oracle:', v or 'holds')
+    return 1 if v else 0
   return cacheh.replay_schedule(path)
